@@ -1220,6 +1220,11 @@ func (e *Env) callExpr(x *Expr) Val {
 		sel := map[string]string{"len": "slen", "cap": "scap"}[x.S]
 		switch u := v.Ty.Underlying().(type) {
 		case *types.Slice:
+			if !strings.Contains(v.T, "%%") {
+				// a slice value a contract measures is a Go slice value: 0 <= len <= cap (contract
+				// expressions read memory without the well-formedness facts loads in the code get)
+				tr.assume("true", fmt.Sprintf("(wfslice %s)", v.T), "wf slice measured by a contract clause")
+			}
 			return Val{T: fmt.Sprintf("(%s %s)", sel, v.T), Ty: intT}
 		case *types.Basic:
 			return Val{T: fmt.Sprintf("(strlen %s)", v.T), Ty: intT}
